@@ -90,6 +90,12 @@ def _callable(kind, p1, p2):
         return partial(dt.pixel_ft, width_x=p1, width_y=p2)
     if kind == 'olpf':
         return partial(dt.olpf_ft, width_x=p1, width_y=p2)
+    if kind == 'slit':           # objects.slit_ft(width_x, width_y, fx, fy): widths bound POSITIONALLY, frequencies last; 0 = None
+        from prysm import objects
+        return partial(objects.slit_ft, p1 if p1 else None, p2 if p2 else None)
+    if kind == 'pinhole':        # objects.pinhole_ft(radius, fr)
+        from prysm import objects
+        return partial(objects.pinhole_ft, p1)
     if kind == 'fx':
         return lambda fx: 1.0 / (1.0 + p1 * fx * fx + p2 * fx)
     if kind == 'fy':
@@ -566,7 +572,8 @@ def _tf_lists(rng, shape, k):
     return out
 
 
-CALL_KINDS = ['jitter', 'smear', 'pixel', 'olpf', 'fx', 'fy', 'ft', 'phase', 'pixel', 'smear', 'olpf', 'const', 'noarg']
+CALL_KINDS = ['jitter', 'smear', 'pixel', 'olpf', 'fx', 'fy', 'ft', 'phase', 'pixel', 'smear', 'olpf', 'const', 'noarg', 'slit', 'pinhole',
+              'slit']
 
 
 def _calls(rng, dx, k):
@@ -584,6 +591,13 @@ def _calls(rng, dx, k):
             c = (kind, 0.0 if z == 1 else w, 0.0 if z == 2 else h)
         elif kind == 'pixel':
             c = (kind, float(np.round(rng.uniform(0.2, 4.0) * dx, 3)), float(np.round(rng.uniform(0.2, 4.0) * dx, 3)))
+        elif kind == 'slit':         # crossed (both widths), x only, y only
+            w = float(np.round(rng.uniform(0.3, 4.0) * dx, 3))
+            h = float(np.round(rng.uniform(0.3, 4.0) * dx, 3))
+            z = int(rng.integers(3))
+            c = (kind, 0.0 if z == 1 else w, 0.0 if z == 2 else h)
+        elif kind == 'pinhole':      # radius <= 0.9 dx: argument of jinc below 2 pi 0.9 / sqrt 2 ~ 4 (the driver's series is exact there)
+            c = (kind, float(np.round(rng.uniform(0.2, 0.9) * dx, 3)), 0.0)
         elif kind == 'olpf':
             c = (kind, float(np.round(rng.uniform(0.2, 3.0) * dx, 3)), float(np.round(rng.uniform(0.2, 3.0) * dx, 3)))
         elif kind in ('fx', 'fy'):
@@ -923,7 +937,7 @@ def search(ctx, hints):
                 tests.append(('tf_list', {'o': _l(o), 'tfs': [_cl(t) for t in _tf_lists(rng, shape, k)], 'shift': shift}))
         tests.append(('tf_conventions', {'o': _l(o), 'tfs': [_cl(t) for t in _tf_lists(rng, shape, 2)]}))
         for c in (('jitter', 0.7, 0.0), ('smear', 1.3, 0.0), ('pixel', 0.9, 1.1), ('fx', 0.5, 0.5), ('fy', 0.5, -0.5), ('ft', 0.3, 0.2),
-                  ('pixel', 3.0, 2.5), ('olpf', 2.2, 1.9), ('phase', 1.25, -0.5), ('const', -0.75, 0.0), ('noarg', 0.5, 0.0)):
+                  ('pixel', 3.0, 2.5), ('olpf', 2.2, 1.9), ('slit', 2.5, 1.5), ('slit', 0.0, 1.5), ('slit', 2.5, 0.0), ('pinhole', 0.8, 0.0), ('phase', 1.25, -0.5), ('const', -0.75, 0.0), ('noarg', 0.5, 0.0)):
             tests.append(('tf_callable', {'o': _l(o), 'dx': 1.0, 'calls': [list(c)]}))
             for gk, pol in (('1d', False), ('2d', True)):
                 tests.append(('tf_callable_grids', {'o': _l(o), 'dx': 1.0, 'calls': [list(c)], 'grid': gk, 'polar': pol}))
